@@ -44,6 +44,8 @@ def ops(g):
         L.append(('_z = %s apply {_x}' % src, [('assign', '_z', ('apply', V(src), [V('_x')]))]))
         L.append(('_z = %s select {true}' % src, [('assign', '_z', ('selectc', V(src), [('bool', True)]))]))
     L.append(('_c = _z', [('assign', '_c', V('_z'))]))
+    for t in ('_b', '_z'):
+        L.append(('(%s select 1) pushBack seven' % t, [('if', B('isequalto', ('un', 'typename', B('select', V(t), N(1))), ('str', b'ARRAY')), [B('pushback', B('select', V(t), N(1)), N(7))], None)]))
     for vn, v in (('h', V('_h')), ('[h]', ('arr', [V('_h')])), ('a', V('_a'))):
         L.append(('_h set [1,%s]' % vn, [B('set', V('_h'), ('arr', [N(1), v]))]))
     L.append(('_a pushBack _h', [B('pushback', V('_a'), V('_h'))]))
@@ -114,9 +116,9 @@ def run(ctx):
     # the deep copy must also detach nested EMPTY arrays: mutate the nested empty array of the copy through a second history
     cases = [('hist.len%d' % L, hist_case(h, L))] + [('hist.' + k, hist_case(h, len(v), v)) for k, v in fixed.items()]
     # pairs: every operation followed by every in-place mutation of the nested empty array / the alias, to expose sharing created by the first
-    muts = find(OPS, '_a pushBack seven', '_z pushBack seven', '_b deleteAt 0', '_a resize 0', '_z set [0,seven]')
+    muts = find(OPS, '_a pushBack seven', '(_z select 1) pushBack seven', '_z pushBack seven', '_b deleteAt 0', '_a resize 0', '_z set [0,seven]')
     if tier == 'quick':
-        cases += [('hist.%d.then.%d' % (i, m), hist_case(h, 2, [i, m])) for i in range(len(OPS)) for m in muts[:2]]
+        cases += [('hist.%d.then.%d' % (i, m), hist_case(h, 2, [i, m])) for i in range(len(OPS)) for m in muts[:3]]
     funcs = sorted(n for n in h.m.DEFINED if ('d_array' in n or 'ops_generic' in n or 'hashmap' in n) and len(n) < 120)
     def key(cid, v, rr):
         if cid == 'hist.hm.via' and v.get('kind') == 'recursion': return 'arr.hist:hashmap-cycle:_h_set_[1,a]'
